@@ -11,48 +11,52 @@ Variable compute_sign : beam -> beam -> crystal_setup -> sign.
 Notation getter := (get_setter snell_internal compute_sign).
 Notation ideal := (ideal_set snell_internal compute_sign).
 
-(* every one of the 25 setters writes exactly one slot (for SOME stored value x): nothing else moves in the view *)
+(* every one of the 25 setters writes exactly one slot: nothing else moves in the view *)
 Lemma frame_all p sl u : In (p, (sl, u)) spec_table ->
-  exists f, getter p = Some f /\ forall s v, slot_pre sl s -> slot_guard sl s ->
+  exists f, getter p = Some f /\ forall s v, slot_guard sl s ->
     config_opaque (f s v) = config_opaque s /\
     (sl <> SPolingPeriod -> config_poling (f s v) = config_poling s) /\
     agree_except (config_key sl) (config_num (f s v)) (config_num s).
 Proof.
-  intros Hin.
-  assert (Hsome : exists f, getter p = Some f /\ forall s v, slot_pre sl s -> exists x, f s v = ideal sl x s).
-  { destruct u;
-      try (destruct (setters_match snell_internal compute_sign p sl _ Hin ltac:(discriminate)) as [f [Hf E]];
-           exists f; split; [exact Hf|]; intros s v Hpre; eexists; now apply E).
-    destruct (thz_some snell_internal compute_sign p sl Hin) as [f [Hf E]].
-    exists f; split; [exact Hf|]; intros s v _; apply E. }
-  destruct Hsome as [f [Hf E]]. exists f. split; [exact Hf|]. intros s v Hpre G.
-  destruct (E s v Hpre) as [x Ex]. rewrite Ex. now apply frame.
+  intros Hin. destruct (setters_match snell_internal compute_sign p sl u Hin) as [f [Hf E]].
+  exists f. split; [exact Hf|]. intros s v G. rewrite E. now apply frame.
 Qed.
 
-(* ... and for every path except the three frequency paths the named key shows the requested value in the path's unit *)
-Lemma value_all p sl u : In (p, (sl, u)) spec_table -> u <> UThz -> sl <> SPolingPeriod ->
+(* ... and the named key shows the requested value in the path's unit *)
+Lemma value_all p sl u : In (p, (sl, u)) spec_table -> sl <> SPolingPeriod ->
   exists f, getter p = Some f /\ forall s v, value_guard snell_internal sl u v s ->
     assoc (config_key sl) (config_num (f s v)) = Some (expected_value snell_internal sl u v s).
 Proof.
-  intros Hin Hu Hp.
-  destruct (setters_match snell_internal compute_sign p sl u Hin Hu) as [f [Hf E]].
-  exists f; split; [exact Hf|]. intros s v G. rewrite E by (destruct sl; try exact I; contradiction).
+  intros Hin Hp.
+  destruct (setters_match snell_internal compute_sign p sl u Hin) as [f [Hf E]].
+  exists f; split; [exact Hf|]. intros s v G. rewrite E.
   pose proof (all_values_ok snell_internal compute_sign) as H. rewrite Forall_forall in H.
-  exact (H _ Hin Hu Hp s v G).
+  exact (H _ Hin Hp s v G).
+Qed.
+
+(* the stored frequency after a frequency_thz setter: 2 pi v 1e12 rad/s *)
+Lemma frequency_stored p b : In (p, (SBeamFrequency b, UThz)) spec_table ->
+  exists f, getter p = Some f /\ forall s v, b_frequency (get_beam b (f s v)) = 2 * PI * (v * 1e12).
+Proof.
+  intros Hin. destruct (setters_match snell_internal compute_sign p _ _ Hin) as [f [Hf E]].
+  exists f. split; [exact Hf|]. intros s v. rewrite E. destruct s, b; reflexivity.
 Qed.
 
 Lemma poling_all :
   exists f, getter "periodic_poling.poling_period_um" = Some f /\
-    (forall s v, s_pp s <> Off -> config_num (f s v) = config_num s /\ config_opaque (f s v) = config_opaque s) /\
+    (forall s v, config_num (f s v) = config_num s /\ config_opaque (f s v) = config_opaque s) /\
     (forall p sg ap s v, s_pp s = On p sg ap -> v <> 0 ->
        config_poling (f s v) = Some (round4 (Rabs v), apod_to_config ap) /\
-       exists m, s_pp (f s v) = On m (compute_sign (s_signal s) (s_pump s) (s_crystal_setup s)) ap /\ 0 < m /\ m = Rabs v * 1e-6).
+       exists m, s_pp (f s v) = On m (compute_sign (s_signal s) (s_pump s) (s_crystal_setup s)) ap /\ 0 < m /\ m = Rabs v * 1e-6) /\
+    (forall s v, s_pp s = Off -> v <> 0 ->
+       config_poling (f s v) = Some (round4 (Rabs v), CfgOff) /\
+       exists m, s_pp (f s v) = On m (compute_sign (s_signal s) (s_pump s) (s_crystal_setup s)) ApOff /\ 0 < m /\ m = Rabs v * 1e-6).
 Proof.
   assert (Hin : In ("periodic_poling.poling_period_um"%string, (SPolingPeriod, UUm)) spec_table) by (cbn; tauto).
-  destruct (setters_match snell_internal compute_sign _ _ _ Hin ltac:(discriminate)) as [f [Hf E]].
-  exists f. split; [exact Hf|]. split.
-  - intros s v Hon. rewrite E by exact Hon. apply frame_poling.
-  - intros p sg ap s v Hpp Hv. rewrite E by (cbn [slot_pre]; rewrite Hpp; discriminate).
-    now apply (poling_value snell_internal compute_sign p sg ap s v).
+  destruct (setters_match snell_internal compute_sign _ _ _ Hin) as [f [Hf E]].
+  exists f. split; [exact Hf|]. split; [|split].
+  - intros s v. rewrite E. apply frame_poling.
+  - intros p sg ap s v Hpp Hv. rewrite E. now apply (poling_value snell_internal compute_sign p sg ap s v).
+  - intros s v Hpp Hv. rewrite E. now apply (poling_value_unpoled snell_internal compute_sign s v).
 Qed.
 End All.
